@@ -6,6 +6,10 @@
 3. store patch, demo, meta (+ what was observed) under /verif/seeded/<PID>-<slug>/."""
 import json, os, re, subprocess, sys, shutil
 pid, slug, checks = sys.argv[1], sys.argv[2], sys.argv[3:]
+# SEED_REPO / SEED_VERIF: run against a private snapshot of /repo and a private copy of /verif (used while a long
+# run occupies /repo); the stored result says so and is confirmed against /repo itself afterwards
+REPO = os.environ.get("SEED_REPO", "/repo")
+VERIF = os.environ.get("SEED_VERIF", "/verif")
 rnd = ""
 if "@" in pid:
     pid, rnd = pid.split("@")
@@ -36,22 +40,22 @@ ok_existing = all(("seeded" in f or "demo" in f) for f in failed) and len(failed
 ok_demo_pass = rc2 == 0
 print("existing tests pass & only demo fails with patch:", ok_existing, "| demo passes without patch:", ok_demo_pass)
 chk = {}
-rc, o = sh("git -C /repo apply %s/patch.diff" % out)
+rc, o = sh("git -C %s apply %s/patch.diff" % (REPO, out))
 assert rc == 0, o
 try:
     for c in checks:
-        rc, o = sh("./check %s --tier quick 2>&1" % c, cwd="/verif", timeout=3600)
+        rc, o = sh("./check %s --tier quick 2>&1" % c, cwd=VERIF, timeout=3600)
         v = [l for l in o.splitlines() if l.startswith("VIOLATION") or l.startswith("KNOWN-FINDING") or l.strip().startswith("key=")]
         chk[c + " quick"] = {"exit": rc, "lines": [x[:400] for x in v[:8]]}
         print(c, "exit", rc); print("\n".join(x[:300] for x in v[:6]))
 finally:
-    print(sh("git -C /repo checkout -- . && git -C /repo status --short")[1])
-    sh("rm -rf /verif/replays/*")
+    print(sh("git -C %s checkout -- . && git -C %s status --short" % (REPO, REPO))[1])
+    sh("rm -rf %s/replays/*" % VERIF)
 d = "/verif/seeded/%s-%s" % (pid, slug)
 os.makedirs(d, exist_ok=True)
 for f in ("patch.diff", "demo.diff"):
     shutil.copy(out + "/" + f, d + "/" + f)
 meta["lead_verification"] = {"seeding_worktree": res, "existing_tests_pass_only_demo_fails_with_patch": ok_existing,
-                             "demo_passes_without_patch": ok_demo_pass, "checks_run": chk,
+                             "demo_passes_without_patch": ok_demo_pass, "checks_run": chk, "applied_to": REPO,
                              "caught": any(v["exit"] == 1 for v in chk.values())}
 json.dump(meta, open(d + "/meta.json", "w"), indent=1)
